@@ -236,6 +236,15 @@ def L(id_, file, func, keyword, nth, name, count=None):
 
 # group name -> list of rules.  A property's obligations name the groups their TU depends on.
 RULES = {
+ 'lfht_tags': [
+  {'id': 'tag_overrides', 'file': 'src/rculfhash.c', 'kind': 'after', 'pattern': r'^\treturn clear_flag\(node\) == \(struct cds_lfht_node \*\) END_VALUE;\s*$',
+   'text': '}\n#include <verif_flag_overrides.h>\nstatic inline void verif_tag_overrides_anchor(void) {', 'count': 1},
+ ],
+ 'lfht_trav': [
+  L('lookup_loop', 'src/rculfhash.c', 'cds_lfht_lookup', 'for', 1, 'lfht_lookup', count=1),
+  L('next_dup_loop', 'src/rculfhash.c', 'cds_lfht_next_duplicate', 'for', 1, 'lfht_next_dup', count=1),
+  L('next_loop', 'src/rculfhash.c', 'cds_lfht_next', 'for', 1, 'lfht_next', count=1),
+ ],
  'qs_attempts_small': [
   {'id': 'rcu_qs_active_attempts', 'file': 'src/urcu.c', 'kind': 'regex', 'pattern': r'^#define RCU_QS_ACTIVE_ATTEMPTS 100\s*$',
    'repl': '#define RCU_QS_ACTIVE_ATTEMPTS 2', 'count': 1},
